@@ -1390,14 +1390,14 @@ func run(ctx *Ctx) *Result {
 							}
 							_ = lineAfter
 							// hypotheses of asa_unshared_group_edit_keeps_agreed_verdicts: the place binds that access list before and after,
-							// no line of that access list is touched in the run and no other group of the line is edited (the generator's member texts never overlap): then the theorem
+							// no line of that access list is touched in the run and no other group that a line of that access list uses is edited (the generator's member texts never overlap): then the theorem
 							// says this failure is impossible
 							aclTouched, otherEdited := false, false
 							var lineRefs []string
+							// `pre` and `post` of the theorem are "untouched in the run": a group that ANY line of that access list
+							// references must not be edited either (its line would evaluate differently before and after)
 							for _, l := range c.dev.ACLs[aclOfGroup] {
-								if contains(refsOf(l), mode) {
-									lineRefs = refsOf(l)
-								}
+								lineRefs = append(lineRefs, refsOf(l)...)
 							}
 							em := ""
 							for _, x := range fl {
